@@ -24,6 +24,7 @@ def _is_string(series: pd.Series, state: dict):
 @String.contains_op.register
 @series_not_sparse
 @series_not_empty
+@series_handle_nulls
 def string_contains(series: pd.Series, state: dict) -> bool:
     if pdt.is_categorical_dtype(series):
         return False
